@@ -69,7 +69,7 @@ let run_conc fl toks =
     let c = int_of_string cap in
     let zc = if c <= 0 then Z0 else Zpos (pos_of_int c) in
     let parse t = match String.split_on_char ':' t with
-      | ["H"; i; sid] -> [SStart (n_of_decimal i, dummy_session (n_of_decimal sid) (n_of_int 1), false)]
+      | ["H"; i; sid] | ["G"; i; sid] -> [SStart (n_of_decimal i, dummy_session (n_of_decimal sid) (n_of_int 1), false)]
       | ["F"; i] -> [SFinish (n_of_decimal i)]
       | ["A"; b] -> [SSetActive (b = "1")]
       | ["E"; sid] -> [SStart (N0, dummy_session (n_of_decimal sid) (n_of_int 1), false); SFinish N0]
@@ -151,6 +151,7 @@ let run_hist fl toks =
     let parse_op t =
       match String.split_on_char ':' t with
       | "E" :: _ -> let (s, rel) = parse_session t in OEvent (s, rel)
+      | "M" :: ok :: ev -> let (s, _) = parse_session (String.concat ":" ("E" :: ev)) in OMutation (s, ok = "1")
       | ["D"; g] -> ODeliver (n_of_decimal g)
       | ["R"; g; s] -> ORedeliver (n_of_decimal g, u64_of_decimal s)
       | ["DF"; g] -> ODeliverF (n_of_decimal g)
